@@ -24,7 +24,11 @@ ASSUMPTIONS = [
     'never share one), the exception kind of a raise is a function of the class and the leading constant text of the message, '
     'message texts and methods of other objects (cursor.execute, Compiler.compile seen from compiler.compile) are uninterpreted; '
     'C09_source_connection_init covers the leading self.<attr> = ... statements of Connection.__init__ (selected by structure); '
-    'attach() (importlib, the data source) is outside the fragment',
+    'the whole of Connection.__init__ and Connection.attach are tied in group attach (C09_source_connection_init_whole, '
+    'C09_source_connection_attach; harness/vf/src_attach.py rule A1, Model/PrimsAttach.v): a connection has exactly the attributes '
+    'tables / options / errors, Connection.attach assigns none and hands the connection itself to attach of '
+    'import_module("beanquery.sources." + urlparse(dsn).scheme); urlparse / import_module return opaque objects whose attributes '
+    'are uninterpreted; what the data source module does to the three containers is outside the fragment',
     'source-data fingerprint (table_fingerprint): value-based and identity-free (two connections on one file give equal fingerprints); '
     'the per-scan working state of a query_env.Row context (rowid, running balance, memo) is not source data and is left out',
 ]
@@ -1687,7 +1691,9 @@ def run(tier, rng):
 def generate():
     """translator tie: regenerate coq/Gen/SrcParams.v from the source of the imported code (py2mini + src_api)"""
     from . import gen_src
-    return gen_src.generate('params')
+    out = gen_src.generate('params')
+    out.update(gen_src.generate('attach'))      # bld-shell3: Connection.__init__ (whole) and Connection.attach
+    return out
 
 
 def replay(rec):
